@@ -42,7 +42,12 @@ ASSUMPTIONS = ['the reference semantics are those documented in OptionsDictionar
                'value; items before it may hold either value',
                'set_function is only generated idempotent and type preserving (abs) with non-negative defaults',
                'a temporary() whose entering fails (rejected value or unset option among its keywords) is held to '
-               'the same restore requirement as one left by an exception; it has its own mechanism key',
+               'the same restore requirement as one left by an exception; it has its own mechanism key '
+               '(temporary:not-restored:enter-failed:<why>); a rejected/undeclared/read-only keyword must make '
+               'temporary() raise, for an option that was never set both outcomes (entered / refused) are '
+               'accepted and "restored" means unset again',
+               'mechanism keys of temporary() are temporary:<observable>:<how the context was left>[:alias-and-'
+               'target-in-one-call][:nested] - observable and exit path first, variants last',
                'entries left in the private _context_cache are counted (note:context-cache-entries-left) and cleared by the harness, they are not a violation by themselves (the property is about option values)']
 MIN_JUDGED = {'quick': 3000, 'thorough': 100000}
 _FEATS = ['values', 'values+list', 'types', 'types-bool', 'lower', 'upper', 'check_valid']
@@ -553,8 +558,13 @@ class _Run(object):
             dup = dup or len(set(tg)) < len(tg)
         if dup:
             acc.count('obs:temporary:alias-and-target-in-one-call')
-        ctx = 'temporary:%s%s%s' % (exit_kind, ':alias-and-target-in-one-call' if dup else '',
-                                    ':nested' if len(levels) > 1 else '')
+        # mechanism key = temporary:<observable>:<how the context was left>[:variants]; the variants come
+        # last so that a listed finding can cover them with a narrow prefix
+        variant = '%s%s%s' % (exit_kind, ':alias-and-target-in-one-call' if dup else '',
+                              ':nested' if len(levels) > 1 else '')
+
+        def key(observable):
+            return 'temporary:%s:%s' % (observable, variant)
         if flavour is not None:
             acc.count('obs:temporary:enter-' + flavour[2])
         opts = self.opts
@@ -600,25 +610,32 @@ class _Run(object):
             if isinstance(raised, _Boom) and mode == 'raise':
                 pass
             elif raised is not None:
-                self.viol(ctx + ':raises-on-valid', 'raised %s: %s' % (type(raised).__name__, str(raised)[:160]))
+                self.viol(key('raises-on-valid'), 'raised %s: %s' % (type(raised).__name__, str(raised)[:160]))
             if inside is not None:
                 acc.count('obs:temporary:inside-values')
                 exp = expected_inside(len(levels) - 1)
                 diff = [n for n in exp if not _state_eq(inside[n], exp[n])]
                 if diff:
                     n = diff[0]
-                    self.viol(ctx + ':value-inside-wrong', 'inside the context option %r is %s, expected %s' %
+                    self.viol(key('value-inside-wrong'), 'inside the context option %r is %s, expected %s' %
                               (n, _short(inside[n]), _short(exp[n])))
             if mid_states:
                 exp = expected_inside(len(levels) - 2)
                 diff = [n for n in exp if not _state_eq(mid_states[0][n], exp[n])]
                 if diff:
                     n = diff[0]
-                    self.viol(ctx + ':inner-not-restored', 'after the inner context was left by an exception '
+                    self.viol(key('inner-not-restored'), 'after the inner context was left by an exception '
                               'option %r is %s, expected %s' % (n, _short(mid_states[0][n]), _short(exp[n])))
         else:
-            if raised is None or isinstance(raised, _Boom):
-                self.viol(ctx + ':entered', 'temporary(%r) was entered although %r cannot be set (%s)' %
+            if flavour[2] == 'unset-option':
+                # An option declared without a default and never set: neither the property nor the
+                # documentation of temporary() says whether such a context may be entered (today reading
+                # the previous value raises).  Both outcomes are accepted; the restore requirement below
+                # (every other option as before, this one unset again) is judged in either case.
+                acc.count('note:temporary:unset-option:' +
+                          ('entered' if raised is None or isinstance(raised, _Boom) else 'refused'))
+            elif raised is None or isinstance(raised, _Boom):
+                self.viol(key('entered'), 'temporary(%r) was entered although %r cannot be set (%s)' %
                           (dict(levels[flavour[0]]), flavour[1], flavour[2]))
         # after the outermost context is gone everything must be as before
         self.shadow = dict(before)
@@ -626,12 +643,12 @@ class _Run(object):
         diff = [n for n in before if not _state_eq(now[n], before[n])]
         if diff:
             n = diff[0]
-            self.viol(ctx + ':not-restored', 'after leaving, option %r is %s, before entering it was %s' %
+            self.viol(key('not-restored'), 'after leaving, option %r is %s, before entering it was %s' %
                       (n, _short(now[n]), _short(before[n])))
             for n in diff:
                 self.shadow[n] = now[n]
-        self.check_cache(ctx)
-        self.compare(ctx + ':after')
+        self.check_cache(key('cache'))
+        self.compare(key('after'))
 
     def do_undeclare(self, name):
         self.acc.count('obs:undeclare')
